@@ -103,6 +103,9 @@ def cases():
 
 
 def search():
+    hit = extra_vartypes_case()
+    if hit:
+        return hit
     for group in cases():
         text = program([s for s, _ in group])
         exp = set().union(*[e for _, e in group])
@@ -121,6 +124,21 @@ def search():
         if sorted(act) != sorted(exp):
             return {"confirmed": True, "input": {"source": text, "statements": [s for s, _ in group]}, "actual": sorted(act), "expected": sorted(exp),
                     "how": "driver.calls after Project.correlate() vs the user procedures invoked by construction (each once)"}
+    return None
+
+
+def extra_vartypes_case():
+    """declarations that use a type keyword of the `extra_vartypes` option (first or later in the list) are declarations, not references: their parenthesised bounds are not calls"""
+    src = ("module m\ncontains\n  subroutine assemble()\n    Vec :: work(10)\n    Mat :: amat(3, 3)\n    integer :: k(2)\n    call fill(work)\n  end subroutine assemble\n  subroutine fill(w)\n    Vec :: w(10)\n  end subroutine fill\nend module m\n")
+    try:
+        proj = realrun.build_project({"src/m.f90": src}, display=["public", "private", "protected"], proc_internals=True, extra_vartypes=["Vec", "Mat"])
+        sub = [p for p in proj.modules[0].subroutines if p.name == "assemble"][0]
+        got = {"calls": sorted(c if isinstance(c, str) else c.name for c in sub.calls), "variables": sorted(v.name for v in sub.variables)}
+    except Exception as e:
+        got = f"{type(e).__name__}: {e}"
+    want = {"calls": ["fill"], "variables": ["amat", "k", "work"]}
+    if got != want:
+        return {"confirmed": True, "input": {"source": src, "settings": {"extra_vartypes": ["Vec", "Mat"]}}, "actual": got, "expected": want, "how": "real pipeline with extra_vartypes: calls and variables of a procedure"}
     return None
 
 
